@@ -1,6 +1,8 @@
 """C06 - every input is answered.
 
 TLC enumerates token lines (CmdTokens.tla: command word + <= 2 argument tokens,
+grammar-shaped lines with at most one mutation, stored messages as line-token
+sequences and as <header name, value class, frame> triples;
 exhaustively; 3 by simulation) for IMAP and ManageSieve, and stored messages as
 sequences of line tokens; the harness concretises each, sends it to the real
 server in the not-authenticated / authenticated / selected state under a
@@ -51,7 +53,7 @@ def known_sig(clause, meta, tr):
         return 'EmptyMultipartBodystructure' 
     if meta['kind'] == 'message' and 'BINARY' in meta.get('last_cmd', '') \
             and meta.get('exc_type') in ('binascii.Error', 'builtins.NotImplementedError') \
-            and clause in ('C06_NoException', 'C06_Answered', 'C06_ByeBeforeClose'):
+            and clause in ('C06_NoException', 'C06_Answered', 'C06_ByeBeforeClose', 'C06_NoServerBug'):
         return 'BinaryFetchUndecodableCTE'
     return None
 
@@ -63,39 +65,9 @@ def main(tier: str) -> int:
     return run.finish()
 
 
-def campaign(run, tier: str, prefix: str) -> None:
-    rng = random.Random(run.seed * 2654435761 % (1 << 31) + 6)
-    quick = tier == 'quick'
-    run.assumptions += [
-        'the input quantifier is covered at TOKEN level only: arbitrary and mutated raw byte strings '
-        'are not enumerable by a TLA+ model (DESIGN.md section 8)',
-        'lines longer than the 64 KiB stream limit are outside the property',
-        'dict backend for IMAP token lines; stored-message half on dict (maildir in thorough)']
-    states2, res = tlc.dump_states('CmdTokens.tla', 'CmdTokens_cmd2.cfg')
-    run.add_model(res, 'cmd tokens <= 2')
-    sstates, sres = tlc.dump_states('CmdTokens.tla', 'CmdTokens_sieve2.cfg')
-    run.add_model(sres, 'sieve tokens <= 2')
-    mstates, mres = tlc.dump_states('CmdTokens.tla', 'CmdTokens_msg3.cfg')
-    run.add_model(mres, 'message line tokens <= 3')
-    if not (res.ok and sres.ok and mres.ok):
-        run.machinery('CmdTokens enumeration failed')
-        return
-    lines = [tuple(s['line']) for s in states2 if s['line']]
-    slines = [tuple(s['line']) for s in sstates if s['line']]
-    msgs = [tuple(s['line']) for s in mstates if s['line']]
-    run.notes['enumerated'] = {'imap_lines': len(lines), 'sieve_lines': len(slines), 'messages': len(msgs)}
-    if quick:
-        rng.shuffle(lines)
-        rng.shuffle(slines)
-        rng.shuffle(msgs)
-        lines, slines, msgs = lines[:2200], slines[:500], msgs[:60]
-    else:
-        run.cov['exhaustive'] = True
-    bad_tokens = {'QUOTED_OPEN', 'LIT_HUGE', 'LIT_BAD', 'LIST_OPEN', 'LIST_DEEP', 'NUM_HUGE',
-                  'SEQSET_BAD', 'FLAG_BAD', 'MBX_UTF7_OPEN', 'MBX_AMP', 'EIGHTBIT', 'NULBYTE',
-                  'BAD_UTF8', 'DATE_BAD', 'SECTION_OPEN', 'HEADERKEY_8BIT', 'NOSPACE', 'TRAILSP',
-                  'BARELF', 'LONG', 'SCRIPT_BAD', 'BOGUS'}
-    traces, meta = [], []
+def _execute(items):
+    """run work items (one connection each) in this process -> [(idx, events, meta)]"""
+    out = []
     w = None
     used = 0
 
@@ -109,93 +81,160 @@ def campaign(run, tier: str, prefix: str) -> None:
         used += 1
         return w
 
-    def record(tr, hang, m):
+    def fin(idx, tr, hang, m):
         nonlocal w
-        traces.append(tr.events)
         m['malformed'] = tr.malformed[1] if tr.malformed else None
         m['malformed_ctx'] = tr.malformed[2].decode('latin1') if tr.malformed else None
-        meta.append(m)
-        if hang:
+        out.append((idx, tr.events, m))
+        if hang and w is not None:
             try:
                 w.close()
             except Exception:
                 pass
             w = None
 
-    n = 0
-    for ln in lines:
-        for st in T.STATES:
-            chunks = T.concretise_line(ln, rng)
-            n += 1
-            tr, hang = T.run_line(world(), st, chunks, name=f'c{n}')
-            record(tr, hang, {'kind': 'imap', 'state': st, 'tokens': ln,
-                              'bytes': [c[:200].decode('latin1') for c in chunks]})
+    for idx, it in items:
+        if it[0] == 'line':
+            _k, label, service, st, tokens, chunks, repeat = it
+            tr, hang = T.run_line(world(), st, chunks, service=service, name=f'c{idx}', repeat=repeat)
+            ins = sum(1 for e in tr.events if e['e'] == 'in')
+            outs = sum(1 for e in tr.events if e['e'] in ('tagged', 'cont'))
+            if ins > outs and not tr.events[-1].get('closed'):
+                hang = True     # a command still owes its answer (it may hold a lock): fresh world next
+            fin(idx, tr, hang, {'kind': label, 'state': st, 'tokens': tokens,
+                                'bytes': [c[:200].decode('latin1') for c in chunks]})
+            continue
+        _k, backend, tokens, body = it
+        mw = World(backend, demo=False) if backend == 'maildir' else world()
+        # a mailbox of its own: SEARCH must meet this message only (blame)
+        box = b'INBOX' if backend == 'maildir' else b'M%d' % idx
+        cmds = [b'CREATE ' + box + b'\r\n'] if box != b'INBOX' else []
+        cmds += [b'APPEND ' + box + b' {%d+}\r\n' % len(body) + body + b'\r\n',
+                 b'SELECT ' + box + b'\r\n']
+        cmds += [b'FETCH * (' + a + b')\r\n' for a in FETCH_ATTS]
+        cmds += [b'SEARCH ' + k + b'\r\n' for k in SEARCH_KEYS]
+        cmds += [b'UID SEARCH CHARSET UTF-8 TEXT {2+}\r\n\xc3\xa9\r\n',
+                 b'COPY * Sent\r\n' if backend == 'dict' else b'NOOP\r\n']
+        tr = T.Transcript()
+        name = f'c{idx}'
+        c = T.prepare(mw, name, 'auth')
+        tr.off = len(c.writer.out)
+        hang = False
+        last_cmd = b''
+        try:
+            with T.Watchdog(8.0):
+                for i, cmd in enumerate(cmds):
+                    if c.done:
+                        break
+                    last_cmd = cmd
+                    for _ in range(max(1, T.logical_lines(b'm%d ' % i + cmd))):
+                        tr.events.append({'e': 'in'})
+                    mw.send(name, b'm%d ' % i + cmd)
+                    tr.absorb(c)
+        except T.Hang:
+            hang = True
+        oc = c.outcome()
+        tr.events.append({'e': 'end', 'closed': bool(c.done or c.writer.closed),
+                          'exc': isinstance(oc, tuple), 'hang': hang, 'eof': False, 'peer': True})
+        if not c.done and not hang:
+            c.eof()
+            mw.run(name)
+        exc_type = ''
+        if c.done and not c.task.cancelled() and c.task.exception() is not None:
+            e = c.task.exception()
+            exc_type = f'{type(e).__module__}.{type(e).__name__}'
+        if backend == 'maildir':
+            mw.close()
+        fin(idx, tr, hang and backend == 'dict',
+            {'kind': 'message', 'backend': backend, 'tokens': tokens,
+             'last_cmd': last_cmd[:80].decode('latin1'), 'exc_type': exc_type,
+             'bytes': [body[:300].decode('latin1')]})
+    if w is not None:
+        w.close()
+    return out
+
+
+def campaign(run, tier: str, prefix: str) -> None:
+    import multiprocessing
+    import os
+    rng = random.Random(run.seed * 2654435761 % (1 << 31) + 6)
+    quick = tier == 'quick'
+    run.assumptions += [
+        'the input quantifier is covered at TOKEN level only: arbitrary and mutated raw byte strings '
+        'are not enumerable by a TLA+ model (DESIGN.md section 8)',
+        'lines longer than the 64 KiB stream limit are outside the property',
+        'dict backend for IMAP token lines; stored-message half on dict (maildir in thorough)']
+    dumps = {}
+    for key, cfg, what in (('cmd', 'CmdTokens_cmd2.cfg', 'cmd tokens <= 2'),
+                           ('tmpl', 'CmdTokens_tmpl.cfg', 'grammar-shaped lines, <= 1 mutation'),
+                           ('sieve', 'CmdTokens_sieve2.cfg', 'sieve tokens <= 2'),
+                           ('msg', 'CmdTokens_msg3.cfg', 'message line tokens <= 3'),
+                           ('hdr', 'CmdTokens_hdr.cfg', 'messages as <header name, value class, frame>')):
+        sts, res = tlc.dump_states('CmdTokens.tla', cfg)
+        run.add_model(res, what)
+        if not res.ok:
+            run.machinery(f'CmdTokens enumeration failed ({cfg})')
+            return
+        dumps[key] = sts
+    lines = sorted(tuple(s['line']) for s in dumps['cmd'] if s['line'])
+    slines = sorted(tuple(s['line']) for s in dumps['sieve'] if s['line'])
+    msgs = sorted(tuple(s['line']) for s in dumps['msg'] if s['line'])
+    tl_legal = sorted(tuple(s['line']) for s in dumps['tmpl'] if s['mut'] == 'none')
+    tl_mut = sorted({tuple(s['line']) for s in dumps['tmpl'] if s['mut'] != 'none'} - set(tl_legal))
+    hdrs = sorted(tuple(s['line']) for s in dumps['hdr'])
+    run.notes['enumerated'] = {'imap_lines': len(lines), 'template_lines': len(tl_legal),
+                               'mutated_template_lines': len(tl_mut), 'sieve_lines': len(slines),
+                               'messages': len(msgs), 'header_messages': len(hdrs)}
+    if quick:
+        for lst in (lines, slines, msgs):
+            rng.shuffle(lst)
+        # every grammar-shaped line and every one-mutation neighbour runs in the quick tier too
+        lines, slines, msgs = lines[:1500], slines[:500], msgs[:60]
+        top = [h for h in hdrs if h[2] == 'top']
+        rest = [h for h in hdrs if h[2] != 'top']
+        rng.shuffle(rest)
+        hdrs = top + rest[:250]
+    else:
+        run.cov['exhaustive'] = True
+    items = []
+    for label, lst in (('imap', lines), ('imap-template', tl_legal), ('imap-mutated-template', tl_mut)):
+        for ln in lst:
+            # grammar-shaped lines: every representative of every token is used
+            for var in ([None] if label == 'imap' else range(T.variants(ln))):
+                for st in T.STATES:
+                    items.append(('line', label, 'imap', st, ln, T.concretise_line(ln, rng, var), 1))
     for ln in slines:
         for st in ('nonauth', 'auth'):
-            chunks = T.concretise_line(ln, rng)
-            n += 1
-            tr, hang = T.run_line(world(), st, chunks, service='sieve', name=f'c{n}')
-            record(tr, hang, {'kind': 'sieve', 'state': st, 'tokens': ln,
-                              'bytes': [c[:200].decode('latin1') for c in chunks]})
+            items.append(('line', 'sieve', 'sieve', st, ln, T.concretise_line(ln, rng), 1))
     # repeated errors on one connection (the consecutive-BAD limit)
     for ln in [('BOGUS',), ('FETCH', 'SEQSET_BAD'), ('SELECT', 'QUOTED_OPEN'), ('LOGIN', 'ATOM')]:
         for st in T.STATES:
-            chunks = T.concretise_line(ln, rng)
-            n += 1
-            tr, hang = T.run_line(world(), st, chunks, name=f'c{n}', repeat=7)
-            record(tr, hang, {'kind': 'imap-repeat', 'state': st, 'tokens': ln,
-                              'bytes': [c[:200].decode('latin1') for c in chunks]})
-    # stored messages
+            items.append(('line', 'imap-repeat', 'imap', st, ln, T.concretise_line(ln, rng), 7))
     for backend in (['dict'] if quick else ['dict', 'maildir']):
         for mt in (msgs if backend == 'dict' else msgs[::8]):
-            body = T.concretise_msg(mt, rng)
-            mw = World(backend, demo=False) if backend == 'maildir' else world()
-            n += 1
-            cmds = [b'APPEND INBOX {%d+}\r\n' % len(body) + body + b'\r\n', b'SELECT INBOX\r\n']
-            cmds += [b'FETCH * (' + a + b')\r\n' for a in FETCH_ATTS]
-            cmds += [b'SEARCH ' + k + b'\r\n' for k in SEARCH_KEYS]
-            cmds += [b'UID SEARCH CHARSET UTF-8 TEXT {2+}\r\n\xc3\xa9\r\n', b'COPY * Sent\r\n' if backend == 'dict' else b'NOOP\r\n']
-            tr = T.Transcript()
-            c = T.prepare(mw, f'c{n}', 'auth')
-            tr.off = len(c.writer.out)
-            hang = False
-            last_cmd = b''
-            try:
-                with T.Watchdog(8.0):
-                    for i, cmd in enumerate(cmds):
-                        if c.done:
-                            break
-                        last_cmd = cmd
-                        for _ in range(max(1, T.logical_lines(b'm%d ' % i + cmd))):
-                            tr.events.append({'e': 'in'})
-                        mw.send(f'c{n}', b'm%d ' % i + cmd)
-                        tr.absorb(c)
-            except T.Hang:
-                hang = True
-            oc = c.outcome()
-            tr.events.append({'e': 'end', 'closed': bool(c.done or c.writer.closed),
-                              'exc': isinstance(oc, tuple), 'hang': hang, 'eof': False, 'peer': True})
-            if not c.done and not hang:
-                c.eof()
-                mw.run(f'c{n}')
-            if backend == 'maildir':
-                mw.close()
-            else:
-                record_w = None
-            exc_type = ''
-            if c.done and not c.task.cancelled() and c.task.exception() is not None:
-                e = c.task.exception()
-                exc_type = f'{type(e).__module__}.{type(e).__name__}'
-            traces.append(tr.events)
-            meta.append({'kind': 'message', 'backend': backend, 'tokens': mt,
-                         'last_cmd': last_cmd[:80].decode('latin1'), 'exc_type': exc_type,
-                         'bytes': [body[:300].decode('latin1')],
-                         'malformed': tr.malformed[1] if tr.malformed else None,
-                         'malformed_ctx': tr.malformed[2].decode('latin1') if tr.malformed else None})
-            if hang and backend == 'dict':
-                w = None
-    if w is not None:
-        w.close()
+            items.append(('message', backend, mt, T.concretise_msg(mt, rng)))
+        for ht in (hdrs if backend == 'dict' else hdrs[::3]):
+            items.append(('message', backend, ht, T.concretise_hdr(ht, rng)))
+    indexed = list(enumerate(items))
+    nproc = max(1, min(int(os.environ.get('VERIF_C06_WORKERS', '8')), os.cpu_count() or 1))
+    parts = [indexed[k::nproc] for k in range(nproc)]
+    if nproc > 1:
+        with multiprocessing.get_context('fork').Pool(nproc) as pool:
+            results = pool.map(_execute, parts)
+    else:
+        results = [_execute(parts[0])]
+    flat = sorted((r for part in results for r in part), key=lambda r: r[0])
+    if len(flat) != len(items):
+        run.machinery(f'{len(items) - len(flat)} executions lost in the workers')
+        return
+    traces = [r[1] for r in flat]
+    meta = [r[2] for r in flat]
+    bad_tokens = {'QUOTED_OPEN', 'LIT_HUGE', 'LIT_BAD', 'LIST_OPEN', 'LIST_DEEP', 'NUM_HUGE',
+                  'SEQSET_BAD', 'FLAG_BAD', 'MBX_UTF7_OPEN', 'MBX_AMP', 'EIGHTBIT', 'NULBYTE',
+                  'BAD_UTF8', 'DATE_BAD', 'SECTION_OPEN', 'HEADERKEY_8BIT', 'NOSPACE', 'TRAILSP',
+                  'BARELF', 'LONG', 'SCRIPT_BAD', 'BOGUS', 'NUM_DIGITS', 'LIT_DIGITS', 'CHARSET_ODD',
+                  'CHARSET_8BIT', 'ZONE_ODD', 'SECTION_ODDNAME'}
+    plain_vals = {'plain', 'addr1', 'date_ok', 'msgid', 'disp', 'cte_b64', 'cte_qp', 'ct_multi'}
 
     verdicts, vres = tlc.validate_total('Trace_Total.tla', 'Trace_Total.cfg', traces)
     if len(verdicts) != len(traces):
@@ -206,10 +245,13 @@ def campaign(run, tier: str, prefix: str) -> None:
         line, clause = verdicts[i]
         m = meta[i - 1]
         mine = clause.startswith(prefix)
-        run.count_exec((m['kind'], m.get('state'), m['tokens']),
-                       nontrivial=any(t in bad_tokens or t.startswith(('HDR_', 'TEXT_', 'BARE', 'NOEOL', 'WSONLY'))
-                                      for t in m['tokens']),
-                       validated=not mine)
+        toks = m['tokens']
+        if m['kind'] == 'message' and len(toks) == 3 and toks[2] in ('top', 'part', 'nested'):
+            nontriv = toks[1] not in plain_vals
+        else:
+            nontriv = m['kind'] == 'imap-mutated-template' or any(
+                t in bad_tokens or t.startswith(('HDR_', 'TEXT_', 'BARE', 'NOEOL', 'WSONLY')) for t in toks)
+        run.count_exec((m['kind'], m.get('state'), toks), nontrivial=nontriv, validated=not mine)
         if clause and not mine:
             other[clause] = other.get(clause, 0) + 1
         if mine:
